@@ -161,7 +161,7 @@ func DecLeaves() []reflect.Type {
 		TInt8, TInt16, TInt32, TInt64, TUint, TUint8, TUint16, TUint32, TUint64, TUintptr, TFloat32,
 		TNumber, TRaw, TTime, TEmpty,
 		reflect.TypeOf(UJ{}), reflect.TypeOf(UT{}), reflect.TypeOf(UI(0)), reflect.TypeOf(UTS("")),
-		reflect.TypeOf(Plain{}), reflect.TypeOf(Rec{}),
+		reflect.TypeOf(Plain{}), reflect.TypeOf(RecP{}),
 	}
 }
 
@@ -374,8 +374,12 @@ func FatalEncodeShape(t reflect.Type) bool {
 		return true
 	case arr && (d >= 1 || t.Kind() == reflect.Map):
 		return true
-	case w > 0 && d >= 1 && t.Kind() == reflect.Interface:
-		return true
+	case w > 0 && d >= 1:
+		// a pointer-shaped wrapper around a pointer to a composite: results depend on stale memory
+		switch t.Kind() {
+		case reflect.Interface, reflect.Struct, reflect.Map, reflect.Slice, reflect.Array:
+			return t != TTime
+		}
 	}
 	return false
 }
